@@ -1,7 +1,8 @@
 #!/bin/bash
 # Runs every patch under /verif/mutants (expected: DETECTED by the check of the property named in
 # the file name) and /verif/refactors (expected: missed by every check), a few at a time.
-#   selftest/mutants_all.sh [mutants|refactors|seeded|refactors_seeded] [jobs]
+#   selftest/mutants_all.sh [mutants|refactors|seeded|seeded_target|refactors_seeded] [jobs]
+# seeded_target: every seeded change against the check of the property it was written to break only.
 ROOT="$(cd "$(dirname "${BASH_SOURCE[0]}")/.." && pwd)"
 KIND="${1:-mutants}"; JOBS="${2:-4}"
 ALL="C02 C03 C04 C05 C06 C10 C16 C17 C19 C20"
@@ -9,16 +10,17 @@ run_one() {
   f="$1"; b="$(basename "$f")"
   case "$KIND" in
     mutants) props="${b%%-*}" ;;
+    seeded_target) props="$(python3 -c "import json,sys;print(json.load(open(sys.argv[1]))['breaks_property'])" "$(dirname "$f")/meta.json")" ;;
     *) props="$ALL" ;;
   esac
-  if [ "$KIND" = seeded ] || [ "$KIND" = refactors_seeded ]; then
+  if [ "$KIND" = seeded ] || [ "$KIND" = seeded_target ] || [ "$KIND" = refactors_seeded ]; then
     "$ROOT/selftest/mutant.sh" "$f" $props | sed "s#^patch.diff#$(basename "$(dirname "$f")")#"
   else
     "$ROOT/selftest/mutant.sh" --crate-tests "$f" $props
   fi
 }
 export -f run_one; export ROOT KIND ALL
-if [ "$KIND" = seeded ] || [ "$KIND" = refactors_seeded ]; then files=$(ls "$ROOT/$KIND"/*/patch.diff); else files=$(ls "$ROOT/$KIND"/*.patch); fi
+if [ "$KIND" = seeded_target ]; then files=$(ls "$ROOT"/seeded/*/patch.diff); elif [ "$KIND" = seeded ] || [ "$KIND" = refactors_seeded ]; then files=$(ls "$ROOT/$KIND"/*/patch.diff); else files=$(ls "$ROOT/$KIND"/*.patch); fi
 RES="${RESULTS_DIR:-$ROOT/selftest/results}"; mkdir -p "$RES"
 echo "$files" | xargs -P "$JOBS" -I{} bash -c 'run_one {}' | tee "$RES/$KIND.txt.part"
 sort "$RES/$KIND.txt.part" > "$RES/$KIND.txt"; rm -f "$RES/$KIND.txt.part"
